@@ -135,7 +135,7 @@ var c03MixedStrs = []string{"Café & Crème", "日本 <語>", "é\"€'", "a&é"
 var c03Specials = []string{"<&>\"'", "a&amp;b", "]]>", "a<b", "x & y", "'q'", "say \"hi\"", " <t> ", "&"}
 var c03Ints = []int{0, 1, -7, 42, 1234567890123, 12}
 var c03Floats = []float64{2.5, -0.75, 1e21, 3, 1e-7, 123456789.125, 0, -12}
-var c03JNums = []json.Number{"12", "1.50"}
+var c03JNums = []json.Number{"12", "1.50", ""}
 
 // the sized numeric types only hand-built maps carry (the encoders list them beside int and float64)
 var c03Sized = []interface{}{int32(-7), int32(2147483647), int64(1) << 40, int64(-9007199254740993), int64(12),
